@@ -271,6 +271,45 @@ def h_case_insensitive(eng, names):
                 eng.prove(okq is None or okq == (before is not None), f"quantity-after-case-insensitive-lookup:{text}")
 
 
+def h_case_insensitive_history(eng, stems):
+    """what a case-insensitive lookup answers does not depend on which (prefixed) names were
+    looked up before: prefixed names memoised on the fly never become names of their own"""
+    prefixes = ("kilo", "milli", "nano", "micro")
+
+    def ask(reg, text, **kw):
+        try:
+            return str(reg.parse_units(text, **kw))
+        except UndefinedUnitError:
+            return None
+        except Exception as e:  # noqa: BLE001
+            return type(e).__name__
+
+    def queries(p, stem):
+        name = p + stem
+        return [name.upper(), name.capitalize(), name.swapcase(), p + name, "milli" + name, (p + name).upper(), name + "s", (name + "s").upper(), p.capitalize() + stem.capitalize()]
+
+    for config in ("per-call", "registry-option"):
+        kw = {"case_sensitive": False} if config == "per-call" else {}
+        opts = {} if config == "per-call" else {"case_sensitive": False}
+        for stem in stems:
+            for p in prefixes:
+                fresh = {}
+                for text in queries(p, stem):
+                    reg = regs.default(eng, **opts)  # pristine again
+                    fresh[text] = (ask(reg, text, **kw), text in reg if config == "registry-option" else None)
+                reg = regs.default(eng, **opts)
+                # the history: ordinary uses of the prefixed name
+                ask(reg, p + stem, case_sensitive=True)
+                reg.Quantity(1, p + stem).to_base_units()
+                getattr(reg, p + stem)
+                for text in queries(p, stem):
+                    got = (ask(reg, text, **kw), text in reg if config == "registry-option" else None)
+                    eng.prove(got == fresh[text], f"case-insensitive-after-history:{config}:{p}{stem}:{text}")
+                # and the ordinary lookups of the doubly prefixed spellings stay refused
+                for text in (p + p + stem, "milli" + p + stem):
+                    eng.prove(ask(reg, text, case_sensitive=True) is None, f"double-prefix-refused-after-history:{config}:{text}")
+
+
 def h_delta_reading(eng):
     """in compound unit expressions offset units are read as their delta counterparts -- unless
     that is disabled, per call or per registry; single offset units are never rewritten; the
@@ -283,6 +322,12 @@ def h_delta_reading(eng):
         "1/degree_Reaumur": ({"delta_degree_Reaumur": -1}, {"degree_Reaumur": -1}),
         "joule/(kilogram*degC)": ({"joule": 1, "kilogram": -1, "delta_degree_Celsius": -1}, {"joule": 1, "kilogram": -1, "degree_Celsius": -1}),
         "degC": ({"degree_Celsius": 1}, {"degree_Celsius": 1}),
+        # an explicit delta spelling beside the plain one: the exponents add up
+        "degC*delta_degC": ({"delta_degree_Celsius": 2}, {"degree_Celsius": 1, "delta_degree_Celsius": 1}),
+        "delta_degC/degC": ({}, {"degree_Celsius": -1, "delta_degree_Celsius": 1}),
+        "joule/degF/delta_degF": ({"joule": 1, "delta_degree_Fahrenheit": -2}, {"joule": 1, "degree_Fahrenheit": -1, "delta_degree_Fahrenheit": -1}),
+        "delta_degC**2*degC/meter": ({"delta_degree_Celsius": 3, "meter": -1}, {"delta_degree_Celsius": 2, "degree_Celsius": 1, "meter": -1}),
+        "degC*celsius": ({"delta_degree_Celsius": 2}, {"degree_Celsius": 2}),
         "kelvin/meter": ({"kelvin": 1, "meter": -1}, {"kelvin": 1, "meter": -1}),
     }
 
@@ -372,5 +417,8 @@ def cases(tier, seed):
     out.append(Case("H08.ch", "reachability_twin", CH, "-", {"func": "reachability_twin", "timeout": 60, "expect": "refuted"}, kind="ch", weight=100.0))
     names = rnd.sample([s for s in spell if s.isascii() and s.isalpha() and len(s) > 2], 150 if big else 40)
     out.append(Case("H08.e", "case-insensitive", M, "h_case_insensitive", {"names": names}, kind="conc"))
+    stems = ["volt", "inch", "farad", "pascal", "gram", "second", "kelvin", "calorie"] + rnd.sample([s for s in spell if s.isascii() and s.isalpha() and 3 < len(s) < 9], 12 if big else 2)
+    for i in range(0, len(stems), 2):
+        out.append(Case("H08.e", f"case-insensitive-history:{i}", M, "h_case_insensitive_history", {"stems": stems[i : i + 2]}, kind="conc"))
     out.append(Case("H08.f", "delta-reading", M, "h_delta_reading", {}, kind="conc"))
     return out
